@@ -228,6 +228,37 @@ func (m *Machine) slice(x, lo, hi, max value) value {
 		Len = len(a)
 		Cap = cap(a)
 	}
+	// symbolic bounds: out-of-range is a path of its own (it panics); in-range values are enumerated
+	if isSym(lo) || isSym(hi) || isSym(max) {
+		f := m.F
+		t := func(v value, def int64) *Term {
+			if v == nil {
+				return f.Const(uint64(def), 64)
+			}
+			tt := m.termOf(v)
+			if tt.W != 64 {
+				tt = f.Resize(tt, 64, kindSigned(kindOf(v)))
+			}
+			return tt
+		}
+		_, isStr := x.(string)
+		_, isSS := x.(*SymStr)
+		tl, th := t(lo, 0), t(hi, int64(Len))
+		var ok *Term
+		if isStr || isSS || max == nil {
+			lim := int64(Cap)
+			if isStr || isSS {
+				lim = int64(Len)
+			}
+			ok = f.And(f.Cmp(OpSle, f.Const(0, 64), tl), f.Cmp(OpSle, tl, th), f.Cmp(OpSle, th, f.Const(uint64(lim), 64)))
+		} else {
+			tm := t(max, int64(Cap))
+			ok = f.And(f.Cmp(OpSle, f.Const(0, 64), tl), f.Cmp(OpSle, tl, th), f.Cmp(OpSle, th, tm), f.Cmp(OpSle, tm, f.Const(uint64(Cap), 64)))
+		}
+		if !m.decide(ok) {
+			panic(fmt.Sprintf("runtime error: slice bounds out of range [symbolic] with capacity %d", Cap))
+		}
+	}
 	l := int64(0)
 	if lo != nil {
 		l = m.intArg(lo)
